@@ -5,6 +5,7 @@ package main
 
 import (
 	"fmt"
+	"go/ast"
 	"go/types"
 	"sort"
 	"strings"
@@ -106,6 +107,20 @@ func (x *Exec) Verify(fn *ssa.Function, ct *Contract) (rep *FuncReport) {
 	x.covers = map[string]bool{}
 	x.topLets = map[string]SV{}
 	x.nopanic = ct != nil && ct.Opts["nopanic"]
+	x.localTypes = map[string]types.Type{}
+	for _, b := range fn.Blocks {
+		for _, in := range b.Instrs {
+			if d, ok := in.(*ssa.DebugRef); ok {
+				if id, ok := d.Expr.(*ast.Ident); ok && x.L.IsVarIdent(id) {
+					t := d.X.Type()
+					if d.IsAddr {
+						t = deref(t)
+					}
+					x.localTypes[id.Name] = t
+				}
+			}
+		}
+	}
 	rep = &FuncReport{Key: x.topKey(), Func: fn.String()}
 	defer func() {
 		if r := recover(); r != nil {
@@ -340,6 +355,9 @@ func (x *Exec) checkFrame(ct *Contract, env *cenv, o Outcome, okGuard string, pi
 				t.keys = append(t.keys, key)
 			}
 		}
+	}
+	if targets["\\everything"] != nil {
+		return
 	}
 	guard := okGuard
 	if ct.Opts["frame_all"] {
